@@ -150,6 +150,9 @@ def run_case(case):
                 pf.boundaryConditionsTerm(phi.BCs)
                 for s in sides:
                     getattr(phi.BCs, s).periodic = True
+                if entry == 'later-explicitstep':
+                    # the step that follows the request is an explicit one
+                    return pf.solveExplicitPDE(phi, 1e-4, pf.divergenceTerm(D1 * pf.gradientTerm(phi)))
                 pf.solvePDE(phi, [pf.transientTerm(phi, 1.0, 1.0), -pf.diffusionTerm(D1)])
                 return phi
             phi = pf.CellVariable(m, 1.0, BC)
@@ -157,6 +160,9 @@ def run_case(case):
                 getattr(phi.BCs, s).periodic = True
             if entry == 'apply':
                 phi.apply_BCs()
+            elif entry == 'explicit':
+                rhs = np.zeros(tuple(int(x) + 2 for x in m.dims))
+                return pf.solveExplicitPDE(phi, 1e-4, rhs)
             else:
                 pf.solvePDE(phi, [pf.transientTerm(phi, 1.0, 1.0), -pf.diffusionTerm(pf.FaceVariable(m, 1.0))])
             return phi
@@ -349,7 +355,7 @@ def plan(tier, seed):
         sides = [s for k in range(nd) for s in SIDES[k]]
         for r in range(1, len(sides) + 1):
             for sub in itertools.combinations(sides, r):
-                for entry in ('ctor', 'apply', 'solve') + (('later-plain', 'later-explicit', 'later-noprecalc') if r <= 2 else ()):
+                for entry in ('ctor', 'apply', 'solve', 'explicit') + (('later-plain', 'later-explicit', 'later-noprecalc', 'later-explicitstep') if r <= 2 else ()):
                     cases.append({'kind': 'periodic', 'cls': cls, 'sides': list(sub), 'entry': entry})
         # shapes
         for n in ([[2, 3, 2][:nd], [3, 3, 3][:nd], [1, 1, 1][:nd], [1, 2, 3][:nd]]):
